@@ -97,7 +97,7 @@ FileRank(f) == CASE f = "enums" -> 0 [] f = "common" -> 1 [] f = "sel" -> 2 [] O
 WF(G) == /\ G.msgs \cap G.enums = {} /\ Types(G) \cap G.deps = {} /\ RpcNames(G) \cap (Types(G) \cup G.deps) = {}
          /\ \A e \in G.parent : e.c \in Types(G) /\ e.p \in G.msgs
          /\ \A f \in G.fields : f.m \in G.msgs /\ f.t \in Types(G) \cup G.deps
-         /\ \A f \in G.refs : f.m \in G.msgs /\ \E d \in G.res : d.r = f.r
+         /\ \A f \in G.refs : f.m \in G.msgs \cup G.deps /\ \E d \in G.res : d.r = f.r
          /\ \A d \in G.res : d.m = "" \/ d.m \in G.msgs
          /\ \A r \in G.rpcs : /\ r.inp \in G.msgs \cup G.deps /\ r.out \in G.msgs \cup G.deps
                               /\ (r.kind = "lro" => r.out = OpT /\ r.resp \in G.msgs /\ r.meta \in G.msgs)
@@ -174,26 +174,30 @@ ExtOrders == {<<"S1", "S2", "Ops">>, <<"Ops", "S1", "S2">>}
 
 \* two services whose full names are character-prefixes of one another, both declaring an RPC `Get` (with different
 \* request / response types) and one more RPC each; both declaration orders
-PfxGraph(s, ord) ==
+\* `dreq`: the request of SvAdmin.Get lives in the DEPENDENCY package and carries a resource_reference to the resource message
+\* Res of the target package (a dependency type is never emitted, but what it refers to in the target package is needed)
+DepReqT == "other.dep.v1.DepReq"
+PfxGraph(s, ord, dreq) ==
   [family |-> "pfx",
    msgs   |-> CommonMsgs \cup {"AdmReq", "AdmResp"},
    enums  |-> CommonEnums,
    parent |-> CommonParent,
-   deps   |-> {Empty, DepT},
+   deps   |-> {Empty, DepT} \cup (IF dreq THEN {DepReqT} ELSE {}),
    fields |-> CommonFields(s) \cup {Fld("AdmResp", "C", "one")},
    res    |-> ResOf(s),
-   refs   |-> RefOf(s),
+   refs   |-> RefOf(s) \cup (IF dreq THEN {[m |-> DepReqT, r |-> "ex.com/Res", how |-> "type"]} ELSE {}),
    order  |-> ord,
    rpcs   |-> {R("Sv", "Get", "ReqA", "A", "unary", "", "", ""),
                R("Sv", "ListB", "ReqL", "RespL", "paged", "", "", ""),
-               R("SvAdmin", "Get", "AdmReq", "AdmResp", "unary", "", "", ""),
+               R("SvAdmin", "Get", IF dreq THEN DepReqT ELSE "AdmReq", "AdmResp", "unary", "", "", ""),
                R("SvAdmin", "DropRes", "Res", Empty, "void", "", "", "")}]
 \* variants: declaration order of the two services x resource declared once / twice x both services in sel.proto or SvAdmin
 \* in a file of its own (svc2.proto)
-PfxVariants == {[ord |-> <<"Sv", "SvAdmin">>, ref |-> "Res",    adm |-> "sel"],
-                [ord |-> <<"SvAdmin", "Sv">>, ref |-> "ResDup", adm |-> "sel"],
-                [ord |-> <<"Sv", "SvAdmin">>, ref |-> "ResDup", adm |-> "svc2"],
-                [ord |-> <<"SvAdmin", "Sv">>, ref |-> "Res",    adm |-> "svc2"]}
+PfxVariants == {[ord |-> <<"Sv", "SvAdmin">>, ref |-> "Res",    adm |-> "sel",  dreq |-> FALSE],
+                [ord |-> <<"SvAdmin", "Sv">>, ref |-> "ResDup", adm |-> "sel",  dreq |-> FALSE],
+                [ord |-> <<"Sv", "SvAdmin">>, ref |-> "ResDup", adm |-> "svc2", dreq |-> FALSE],
+                [ord |-> <<"SvAdmin", "Sv">>, ref |-> "Res",    adm |-> "svc2", dreq |-> FALSE],
+                [ord |-> <<"Sv", "SvAdmin">>, ref |-> "Res",    adm |-> "sel",  dreq |-> TRUE]}
 AllInSel(G) == {[s |-> x, f |-> "sel"] : x \in {r.s : r \in G.rpcs}}
 
 \* placement of the top-level types in files.  enums.proto holds the enum Kind2 (variant "enum+msg": also the message Unused,
@@ -243,7 +247,7 @@ PickSlots(i) == [a1 |-> A1s[(i % 5) + 1], a2 |-> A2s[((i \div 5) % 3) + 1], b |-
                  res |-> RSs[((i \div 2700) % 3) + 1], ef |-> EFs[((i \div 8100) % 2) + 1]]
 Std(s) == LET G == StdGraph(s) IN Placed(G, s.ef, AllInSel(G))
 Graphs == CASE Scope = "ext"  -> {LET G == ExtGraph(s, o) IN Placed(G, s.ef, AllInSel(G)) : s \in SlotSpace, o \in ExtOrders}
-            [] Scope = "pfx"  -> {LET G == PfxGraph([s EXCEPT !.ref = v.ref], v.ord) IN
+            [] Scope = "pfx"  -> {LET G == PfxGraph([s EXCEPT !.ref = v.ref], v.ord, v.dreq) IN
                                   Placed(G, s.ef, {[s |-> "Sv", f |-> "sel"], [s |-> "SvAdmin", f |-> v.adm]}) : s \in SlotSpace, v \in PfxVariants}
             [] Scope = "pick" -> {Std(PickSlots(i % FullSize)) : i \in Pick}
             [] OTHER          -> {Std(s) : s \in SlotSpace}
